@@ -53,6 +53,7 @@ def run(F, rep, tier):
         rep.missing_anchor(rid, "positive control: scan() must be recognised as building the grid with Vec::push")
     orientation_rule(F, rep)
     plane_invariant_rule(F, rep)
+    nonempty_grid_rule(F, rep)
     from props import c19_glyphs
     c19_glyphs.run(F, rep)
     rep.explanation += " Recognition fidelity (same table as drawn, same result as the XML form) is geometry over run-time grids and is not decided."
@@ -195,3 +196,69 @@ def plane_invariant_rule(F, rep):
                       "under the assumption that every row has the plane's width" % "; ".join(probs), "%s:%s" % (h["file"], h["line"]))
     else:
         rep.ok(rid, "finalize", "compares row lengths with the width, rejects the empty plane, has an Err exit")
+
+
+SHRINKING = ("clear", "pop", "truncate", "remove", "drain", "retain", "retain_mut", "split_off", "swap_remove", "resize", "resize_with", "dedup", "dedup_by", "dedup_by_key", "take")
+
+
+def nonempty_grid_rule(F, rep):
+    """R19.8: Canvas::move_to clamps a point into the grid and then reads `self.content[y]` - with `y = 0` when the grid has no row, so a canvas without rows panics on the
+    first cursor movement (recognize_information_item_name runs on every scanned text). The audited bounds arguments of the canvas sites start from a grid with at least
+    one row; that premise is decided where the grid is made: in every function that builds a Canvas literal, the vector given as `content` starts non-empty
+    (`vec![vec![]]`) and is never shrunk or replaced, or the literal is reached only behind a test of its emptiness."""
+    from facts import find_hir, strip
+    rid = rep.rule("R19.8", "the grid handed to a Canvas literal has at least one row: it starts from a non-empty vector and is never shrunk, or its emptiness is tested before (move_to reads content[0] on an empty grid)")
+    n = 0
+    for name, h in sorted(F.hir.items()):
+        if not name.startswith("dmntk_recognizer::"):
+            continue
+        for lit, _ in find_hir(h["body"], lambda x: x.get("k") == "Struct" and str(x.get("path") or "").endswith("canvas::Canvas")):
+            fields = {f["name"]: f["e"] for f in lit.get("fields", [])}
+            if "content" not in fields:
+                continue
+            n += 1
+            short = name.split("::")[-1]
+            key = "grid:%s" % short
+            where = "%s:%s" % (h["file"], lit.get("l"))
+            e = strip(fields["content"])
+            if not (e.get("k") == "Path" and e.get("res") == "local"):
+                rep.undecided(rid, key, "the grid of the Canvas literal is not a local vector")
+                continue
+            loc = e["name"]
+            lets = [st for st, _ in find_hir(h["body"], lambda x: x.get("k") == "LetStmt" and x.get("p", {}).get("k") == "Bind" and x["p"].get("name") == loc)]
+            assigns = [a for a, _ in find_hir(h["body"], lambda x: x.get("k") == "Assign" and isinstance(x.get("a"), dict) and strip(x["a"]).get("name") == loc)]
+            if len(lets) != 1 or "e" not in lets[0] or assigns:
+                rep.undecided(rid, key, "the grid local `%s` is bound or assigned more than once" % loc)
+                continue
+            init = lets[0]["e"]
+            arrays = find_hir(init, lambda x: x.get("k") == "Array" and x.get("m") == "vec!")
+            from_elem = [c for c, _ in find_hir(init, lambda x: x.get("k") == "Call" and str(x.get("callee") or "").endswith("vec::from_elem") and len(x.get("args", [])) == 2)]
+            empty_ctor = strip(init).get("k") == "Call" and re.search(r"vec::Vec::<.*>::(new|with_capacity)$|Default::default$", str(strip(init).get("callee") or "")) is not None
+            starts_nonempty = any(len(a.get("es", [])) >= 1 for a, _ in arrays) or \
+                any(strip(c["args"][1]).get("k") == "Lit" and isinstance(strip(c["args"][1]).get("v"), int) and strip(c["args"][1])["v"] >= 1 for c in from_elem)
+
+            def on_local(x):
+                r = x.get("recv")
+                while isinstance(r, dict) and r.get("k") in ("AddrOf", "Unary", "DropTemps", "Paren"):
+                    r = r.get("e") or r.get("a")
+                return isinstance(r, dict) and r.get("k") == "Path" and r.get("res") == "local" and r.get("name") == loc
+            calls = find_hir(h["body"], lambda x: x.get("k") == "MethodCall" and on_local(x))
+            shrink = sorted({c["method"] for c, _ in calls if c.get("method") in SHRINKING})
+            tested = [c for c, ps in calls if c.get("method") in ("is_empty", "len") and any(q.get("k") in ("If", "Match") for q in ps if isinstance(q, dict))]
+            moved = [c for c, _ in find_hir(h["body"], lambda x: x.get("k") == "Call" and any(
+                strip(a).get("k") == "AddrOf" and strip(a).get("mut") and strip(strip(a).get("e", {})).get("name") == loc for a in x.get("args", [])))]
+            top_push = [c for c, ps in calls if c.get("method") in ("push", "insert") and not any(
+                isinstance(q, dict) and q.get("k") in ("If", "Match", "Loop", "Closure") for q in ps)]
+            if starts_nonempty and not shrink and not moved:
+                rep.ok(rid, key, "`%s` starts with a row and is only grown (%d method calls on it)" % (loc, len(calls)))
+            elif tested and not shrink:
+                rep.ok(rid, key, "the emptiness of `%s` is tested before the canvas is built" % loc)
+            elif top_push and not shrink and not moved:
+                rep.ok(rid, key, "`%s` receives a row unconditionally" % loc)
+            elif empty_ctor and not tested and not moved and not arrays:
+                rep.violation(rid, key, "%s builds the canvas from a grid that starts empty (`%s`), receives rows only inside loops / conditions and is never tested for emptiness: for a text "
+                              "without a drawing the canvas has no row, and Canvas::move_to reads `self.content[0]` (y is clamped to 0 when there is no row) - a panic instead of an error"
+                              % (short, loc), where)
+            else:
+                rep.undecided(rid, key, "the grid `%s` is neither visibly non-empty nor visibly empty (shrinking calls: %s)" % (loc, shrink or "none"))
+    rep.floor(rid, "Canvas literals", n, 1)
